@@ -76,6 +76,7 @@ type checker struct {
 	memo     sync.Map
 	sampled  sync.Map
 	memoHits atomic.Int64
+	midSteps atomic.Int64 // probe>X mid-step situations judged
 	// scenarios actually validated that contained >=1 HTLC output spend
 	scenWithHtlc atomic.Int64
 }
@@ -98,6 +99,7 @@ type scen struct {
 	i     int    // node under test
 	owner int    // owner of the commitment that confirms
 	kind  string // own | remote-current | remote-pending
+	mid   bool   // checked between the node's ReceiveNewCommitment and RevokeCurrentCommitment
 	st    *chanstate.OpenChannel
 	cm    *channeldb.ChannelCommitment
 	tx    *wire.MsgTx
@@ -116,19 +118,27 @@ type scen struct {
 	failed   bool
 }
 
+// label is the scenario kind as it appears in signatures and outcome classes.
+func (s *scen) label() string {
+	if s.mid {
+		return s.kind + "@mid-step"
+	}
+	return s.kind
+}
+
 func (s *scen) bad(item, failure, format string, a ...any) {
 	s.failed = true
 	msg := fmt.Sprintf(format, a...)
-	what := fmt.Sprintf("node %c, %s commitment (owner %c, height %d) confirms: %s: %s", 'A'+s.i, s.kind, 'A'+s.owner, s.cm.CommitHeight, item, msg)
+	what := fmt.Sprintf("node %c, %s commitment (owner %c, height %d) confirms: %s: %s", 'A'+s.i, s.label(), 'A'+s.owner, s.cm.CommitHeight, item, msg)
 	if s.c.verbose {
 		fmt.Printf("INFO   !! %s/%s: %s\n", item, failure, what)
 	}
-	s.w.Violate(fmt.Sprintf("c05:%s:%s:%s", s.kind, item, failure), what)
+	s.w.Violate(fmt.Sprintf("c05:%s:%s:%s", s.label(), item, failure), what)
 }
 
 func (s *scen) ok(item string, val int64) {
 	s.c.engineOK.Add(1)
-	s.c.classes.Add(s.typ + "/" + s.kind + "/" + item)
+	s.c.classes.Add(s.typ + "/" + s.label() + "/" + item)
 	s.items = append(s.items, fmt.Sprintf("%s=%d", item, val))
 	if s.c.verbose {
 		fmt.Printf("INFO      ok %-28s %d sat\n", item, val)
@@ -272,7 +282,7 @@ func (s *scen) early(item string, inp input.Input, seqAdj, lockAdj int64, peerSi
 		s.bad(item, "early-spend-wrong-error", "the spend one block early fails, but not on the timelock: %v", err)
 	default:
 		s.c.negOK.Add(1)
-		s.c.classes.Add(s.typ + "/" + s.kind + "/" + item)
+		s.c.classes.Add(s.typ + "/" + s.label() + "/" + item)
 		if s.c.verbose {
 			fmt.Printf("INFO      ok %-28s rejected one block early (%v)\n", item, err)
 		}
@@ -732,12 +742,12 @@ func (s *scen) finish(exp []claim, balSat, htlcSat, feeSat, dustSat int64) {
 	if s.htlcOuts == 0 {
 		return
 	}
-	if _, dup := s.c.sampled.LoadOrStore(s.typ+"/"+s.kind, true); dup {
+	if _, dup := s.c.sampled.LoadOrStore(s.typ+"/"+s.label(), true); dup {
 		return
 	}
 	s.c.samples.Add(map[string]any{
 		"space": s.w.P.Name(), "history": strings.Join(s.w.Hist(), " "), "node": string(rune('A' + s.i)),
-		"confirmed": s.kind, "commit_height": s.cm.CommitHeight, "validated": s.items,
+		"confirmed": s.label(), "commit_height": s.cm.CommitHeight, "validated": s.items,
 		"claimable_sat": gs, "balance_sat": balSat, "htlc_sat": htlcSat, "second_level_fee_sat": feeSat, "dust_sat": dustSat,
 	})
 }
@@ -779,11 +789,14 @@ func fingerprint(space string, i int, kind string, cuts int, cm *channeldb.Chann
 }
 
 // seen reports whether an identical scenario was already validated (memo mode only).
-func (c *checker) seen(w *chanmc.World, full bool, i int, kind string, cm *channeldb.ChannelCommitment, point *btcec.PublicKey) bool {
+func (c *checker) seen(w *chanmc.World, full bool, i int, kind string, cm *channeldb.ChannelCommitment, point *btcec.PublicKey, extra ...[32]byte) bool {
 	if full || c.verbose {
 		return false
 	}
 	fp := fingerprint(w.P.Name(), i, kind, w.Cuts(), cm, point)
+	for _, e := range extra {
+		fp = sha256.Sum256(append(fp[:], e[:]...))
+	}
 	if _, dup := c.memo.LoadOrStore(fp, struct{}{}); dup {
 		c.memoHits.Add(1)
 		return true
@@ -791,9 +804,9 @@ func (c *checker) seen(w *chanmc.World, full bool, i int, kind string, cm *chann
 	return false
 }
 
-func (c *checker) newScen(w *chanmc.World, i, owner int, kind string, cm *channeldb.ChannelCommitment) *scen {
+func (c *checker) newScen(w *chanmc.World, i, owner int, kind string, mid bool, cm *channeldb.ChannelCommitment) *scen {
 	st := w.Chan(i).State()
-	s := &scen{c: c, w: w, typ: w.P.Type, ct: w.ChanType(), i: i, owner: owner, kind: kind, st: st, cm: cm,
+	s := &scen{c: c, w: w, typ: w.P.Type, ct: w.ChanType(), i: i, owner: owner, kind: kind, mid: mid, st: st, cm: cm,
 		utxo: map[wire.OutPoint]*wire.TxOut{}, used: map[wire.OutPoint]string{}}
 	if s.ct.HasLeaseExpiration() {
 		s.leaseExpiry = fixtureThaw
@@ -811,16 +824,16 @@ func (c *checker) newScen(w *chanmc.World, i, owner int, kind string, cm *channe
 	s.utxo[walletOutPoint] = &wire.TxOut{Value: walletUtxoSat, PkScript: walletPkScript}
 	c.scenarios.Add(1)
 	if c.verbose {
-		fmt.Printf("INFO    node %c, %s commitment (owner %c, height %d, %d HTLCs) confirms\n", 'A'+i, kind, 'A'+owner, cm.CommitHeight, len(cm.Htlcs))
+		fmt.Printf("INFO    node %c, %s commitment (owner %c, height %d, %d HTLCs) confirms\n", 'A'+i, s.label(), 'A'+owner, cm.CommitHeight, len(cm.Htlcs))
 	}
 	return s
 }
 
 // ownClose: the node force-closes with its latest commitment.
-func (c *checker) ownClose(w *chanmc.World, i int) (s *scen) {
+func (c *checker) ownClose(w *chanmc.World, i int, mid bool) (s *scen) {
 	st := w.Chan(i).State()
 	cm := st.LocalCommitment
-	s = c.newScen(w, i, i, "own", &cm)
+	s = c.newScen(w, i, i, "own", mid, &cm)
 	if s.failed {
 		return
 	}
@@ -911,9 +924,9 @@ func (s *scen) checkAnchor(res *lnwallet.AnchorResolution) {
 }
 
 // remoteClose: the counterparty's commitment cm (node i's own copy of it) confirms.
-func (c *checker) remoteClose(w *chanmc.World, i int, kind string, cmIn channeldb.ChannelCommitment, commitPoint *btcec.PublicKey) (s *scen) {
+func (c *checker) remoteClose(w *chanmc.World, i int, kind string, mid bool, cmIn channeldb.ChannelCommitment, commitPoint *btcec.PublicKey) (s *scen) {
 	cm := cmIn
-	s = c.newScen(w, i, 1-i, kind, &cm)
+	s = c.newScen(w, i, 1-i, kind, mid, &cm)
 	if s.failed {
 		return
 	}
@@ -987,6 +1000,11 @@ func nonDustRecorded(cm *channeldb.ChannelCommitment) int {
 
 // checkState is the per-state entry point (chanmc.Space.OnState).
 func (c *checker) checkState(w *chanmc.World, full bool) {
+	// The state reached by a terminal `probe>X` action was already judged by
+	// checkMidStep (Hooks.OnMidStep) on the same live world.
+	if h := w.Hist(); len(h) > 0 && strings.HasPrefix(h[len(h)-1], "probe>") {
+		return
+	}
 	t0 := time.Now()
 	defer func() { c.nanos.Add(int64(time.Since(t0))) }()
 	c.states.Add(1)
@@ -1005,17 +1023,17 @@ func (c *checker) checkState(w *chanmc.World, full bool) {
 		case st.LocalCommitment.CommitHeight < 1:
 			c.skippedH0.Add(1)
 		case !c.seen(w, full, i, "own", &st.LocalCommitment, nil):
-			ss = append(ss, c.ownClose(w, i))
+			ss = append(ss, c.ownClose(w, i, false))
 		}
 		htlcSpends += nonDustRecorded(&st.LocalCommitment) + nonDustRecorded(&st.RemoteCommitment)
 		if !c.seen(w, full, i, "remote-current", &st.RemoteCommitment, st.RemoteCurrentRevocation) {
-			ss = append(ss, c.remoteClose(w, i, "remote-current", st.RemoteCommitment, st.RemoteCurrentRevocation))
+			ss = append(ss, c.remoteClose(w, i, "remote-current", false, st.RemoteCommitment, st.RemoteCurrentRevocation))
 		}
 		if tip, err := st.RemoteCommitChainTip(); err == nil && tip != nil {
 			pending = true
 			htlcSpends += nonDustRecorded(&tip.Commitment)
 			if !c.seen(w, full, i, "remote-pending", &tip.Commitment, st.RemoteNextRevocation) {
-				ss = append(ss, c.remoteClose(w, i, "remote-pending", tip.Commitment, st.RemoteNextRevocation))
+				ss = append(ss, c.remoteClose(w, i, "remote-pending", false, tip.Commitment, st.RemoteNextRevocation))
 			}
 		}
 		for _, s := range ss {
@@ -1029,5 +1047,44 @@ func (c *checker) checkState(w *chanmc.World, full bool) {
 	}
 	if pending {
 		c.pendingState.Add(1)
+	}
+}
+
+// checkMidStep is Hooks.OnMidStep: node p has just run ReceiveNewCommitment on the
+// counterparty's commitment_signed and has NOT yet run RevokeCurrentCommitment (the
+// link releases the channel mutex between the two calls, so a force close or a chain
+// event can land here). The in-memory local commit chain holds a new tip, while the
+// broadcastable commitment is still the old one (State().LocalCommitment is
+// unchanged and un-revoked): all three scenarios are re-judged for node p on that live
+// object; nothing of the pending new commitment may leak into the resolutions. The
+// other node's objects are untouched by p's ReceiveNewCommitment (its scenarios equal
+// those of the pre-delivery state, which OnState has judged), so they are not repeated.
+//
+// Memo: the scenario fingerprint gets a mid-step marker plus the fingerprint of the
+// commitment being delivered (the sender's RemoteCommitChainTip), which determines the
+// new in-memory tip; a mid-step check is therefore never skipped as a duplicate of the
+// pre-delivery state, only as a duplicate of an identical mid-step situation.
+func (c *checker) checkMidStep(w *chanmc.World, p int, full bool) {
+	t0 := time.Now()
+	defer func() { c.nanos.Add(int64(time.Since(t0))) }()
+	c.midSteps.Add(1)
+	marker := sha256.Sum256([]byte("mid-step"))
+	if tip, err := w.Chan(1 - p).State().RemoteCommitChainTip(); err == nil && tip != nil {
+		marker = fingerprint("mid-step", p, "delivered", w.Cuts(), &tip.Commitment, nil)
+	}
+	st := w.Chan(p).State()
+	switch {
+	case st.LocalCommitment.CommitHeight < 1:
+		c.skippedH0.Add(1)
+	case !c.seen(w, full, p, "own", &st.LocalCommitment, nil, marker):
+		c.ownClose(w, p, true)
+	}
+	if !c.seen(w, full, p, "remote-current", &st.RemoteCommitment, st.RemoteCurrentRevocation, marker) {
+		c.remoteClose(w, p, "remote-current", true, st.RemoteCommitment, st.RemoteCurrentRevocation)
+	}
+	if tip, err := st.RemoteCommitChainTip(); err == nil && tip != nil {
+		if !c.seen(w, full, p, "remote-pending", &tip.Commitment, st.RemoteNextRevocation, marker) {
+			c.remoteClose(w, p, "remote-pending", true, tip.Commitment, st.RemoteNextRevocation)
+		}
 	}
 }
